@@ -70,6 +70,12 @@ RULE = ('all networks x witness types at creation with rotating ways of creating
         'configuration (another witness type / network / account, change 1, hardened levels on watch-only wallets, full '
         'paths above the main key, paths deeper than the key path, level offsets above and below the main key, cosigner '
         'positions in and out of range), each misfit asked twice in a row, followed by ordinary requests; '
+        'a frozen corpus of seeds with structurally special key material (private key / chain code / public-key x / '
+        'fingerprint starting with one or two zero bytes at each level m, purpose, coin type, account, change, index of '
+        'the documented path, per witness type; cosigner keys with a leading zero byte at each BIP48 / BIP45 level) and '
+        'the BIP32 test-vector seeds 1-4, each with a creation / restoration matrix and a short history; full and '
+        'relative paths that name an account with account_id absent / 0 / equal on default accounts 0 and non-zero, '
+        'followed by new_key / get_key / listings of that account; '
         'a case is non-trivial when a wallet was created and keys were handed out; distinct by request')
 IMPL_TIMEOUT = 3000
 WORKERS = 10
@@ -590,6 +596,314 @@ def master_kinds_for(scn, have_src):
     return ks
 
 
+# ------------------------------------------------------------------ frozen corpus: structurally special key material
+# Seeds drawn at random never produce a key whose 32-byte private key, chain code, public-key x coordinate or
+# fingerprint STARTS WITH ZERO BYTES at a given level of a documented path (1 seed in 256 per level and byte): every
+# serialisation of fixed width (ser256 in CKDpriv, the 33-byte keys of CKDpub / HASH160, the 78-byte extended key) is
+# exercised only with full-width values.  The seeds below were found once by search with the BIP32 of this file
+# (candidates sha256("c09 corpus|<tag>|<i>"); index-level entries by walking the address index) and are frozen here;
+# corpus_ok() re-checks every claimed feature with the oracle's own derivation before an entry is used.
+#   (tag, feature, zero bytes, level L of m/purpose'/coin'/account'/change/index (0 = m), seed, witness type, network,
+#    account, change, index)    feature: priv / chain / pubx = private key / chain code / public-key x of the key at level
+#    L; fpr = fingerprint of that key (carried by its children)
+CORPUS = [
+    ('priv1-L0-l', 'priv', 1, 0, '960ef94c754f6c453ea81d02abef65a783d843db45194164a560df8a0e20ee86', 'l', 'bitcoin', 0, 0, 0),
+    ('priv1-L0-p', 'priv', 1, 0, 'bbfba2232b7c33bb78aeea216a67d6432f8bd460ab1129b3835b9339c99e8058', 'p', 'testnet', 0, 1, 0),
+    ('priv1-L0-s', 'priv', 1, 0, 'aa94945c39318049af28f9334ad195d25dc378a2612be9ee3f748080a4280271', 's', 'litecoin', 1, 0, 0),
+    ('priv1-L1-l', 'priv', 1, 1, 'a37c209024f4bce109cf0760668db19e14c99edf9a7420473465616316677fbd', 'l', 'dogecoin', 3, 1, 0),
+    ('priv1-L1-p', 'priv', 1, 1, '13ac080ae6c98f83b3661324e92925137c0163cc8aa8c4bc4ec09533cc04f9e5', 'p', 'signet', 2, 0, 0),
+    ('priv1-L1-s', 'priv', 1, 1, '9654a29224e225303f01a71517706d547eb2831634e9361839008763d450e45b', 's', 'litecoin_testnet', 0, 1, 0),
+    ('priv1-L2-l', 'priv', 1, 2, 'b5c06f4ab40eb05aa8da6f997dd05bdd26112beaaf9750b0656254797ba5d120', 'l', 'dogecoin_testnet', 0, 0, 0),
+    ('priv1-L2-p', 'priv', 1, 2, '373c566eaf935cbf197ffa0970d2b1f05c0f480ea2e6da81578f76839862daf4', 'p', 'regtest', 1, 1, 0),
+    ('priv1-L2-s', 'priv', 1, 2, '1685cd37441fbfd369f825361ee0aa943a06fbd9d47c74593d5bd49dd0701b77', 's', 'litecoin_legacy', 3, 0, 0),
+    ('priv1-L3-l', 'priv', 1, 3, 'aff258f00407415999a47cd7203f16df6d60ed39e7714d00a8205d11483125eb', 'l', 'testnet', 2, 1, 0),
+    ('priv1-L3-p', 'priv', 1, 3, 'ea873ee2fb51b9f94bc7476a868b7d3b8e852854eca600e812d691b12c52f1cd', 'p', 'testnet', 0, 0, 0),
+    ('priv1-L3-s', 'priv', 1, 3, 'dbc35b57cf777f2a997fadb4ff6a11f9eb005fba3c356a57876989251b686364', 's', 'litecoin', 0, 1, 0),
+    ('priv1-L4-l', 'priv', 1, 4, '4a15c607c6ef17d592abd063e24f08347e409917362b23265eb7f45914f042db', 'l', 'bitcoinlib_test', 1, 0, 0),
+    ('priv1-L4-p', 'priv', 1, 4, '0b5c5196fe586e417bf088b35854fe59637617682a7d716d56590c97ce2c0455', 'p', 'signet', 3, 1, 0),
+    ('priv1-L4-s', 'priv', 1, 4, '3a3da4f4b5d1200ca4b13a48f4971ccaf5430082fff845b6f78c2c0f0d64e34c', 's', 'litecoin_testnet', 2, 0, 0),
+    ('priv1-L5-l', 'priv', 1, 5, '1ba73252c78ac7662add600e94b6b024ad791abf76e0155e6d64836d0671b78e', 'l', 'regtest', 0, 1, 965),
+    ('priv1-L5-p', 'priv', 1, 5, '71f1e7c34d9fe5b1a9a6d298a94ab153b97de7c1bcbe33af638cb95cb3486422', 'p', 'regtest', 0, 0, 37),
+    ('priv1-L5-s', 'priv', 1, 5, '44fddcc78cf39a93e0a89acfb17f08de9e8e5a0e4110018828554473cd18d3d0', 's', 'litecoin_legacy', 1, 1, 296),
+    ('priv2-L0-l', 'priv', 2, 0, 'f0e14794c6f7c5d78e2fe5cdc6914006b54dcba6b7669a74a77762ddaaec55bf', 'l', 'litecoin', 3, 0, 0),
+    ('priv2-L0-p', 'priv', 2, 0, '05fc46d7287163c5cdae418075ecb21069ab2d50d8d577f3e821043ecd431a5f', 'p', 'testnet', 2, 1, 0),
+    ('priv2-L0-s', 'priv', 2, 0, '2b5e26b469c6321c1d73d5a58fcf8491c809248f330f0d9e2e198abab65ae358', 's', 'litecoin', 0, 0, 0),
+    ('priv2-L1-l', 'priv', 2, 1, '7b37975cb8632fd8e8376b2086e578a4ea8dd475ad6b2e2b41f9751faa810663', 'l', 'signet', 0, 1, 0),
+    ('priv2-L1-p', 'priv', 2, 1, '06e5537312e668e9ad9212ba8730894035e8062b3ea6155321c715d8ad0c260f', 'p', 'signet', 1, 0, 0),
+    ('priv2-L1-s', 'priv', 2, 1, 'e89672f614eb41d3bf80c756564490233eaa7bf925f8036117c45dc5917080a9', 's', 'litecoin_testnet', 3, 1, 0),
+    ('priv2-L2-l', 'priv', 2, 2, '653397b90e1acc180af94b53beb6377ddc0cc90ec55ccec3907f7b518c64cbd7', 'l', 'bitcoin', 2, 0, 0),
+    ('priv2-L2-p', 'priv', 2, 2, 'e6e11e7ad4a5a9d3c09228f2763e4b40ad458e63be7d6d31db68c44d9376e788', 'p', 'regtest', 0, 1, 0),
+    ('priv2-L2-s', 'priv', 2, 2, '76d1f792c7a677711da36d7528e63ba0e9ba0b8dc0a08ee8b0f229dab30387ed', 's', 'litecoin_legacy', 0, 0, 0),
+    ('priv2-L3-l', 'priv', 2, 3, '906ba1625ad0e387ffc890f0a9f98c680ecde930f39a02f8c13d4e23f5a1cdf5', 'l', 'dogecoin', 1, 1, 0),
+    ('priv2-L3-p', 'priv', 2, 3, '216676dcd1c7f42069ea3342e9c308cfd7438738bd41fc164fe4d03ab9c04422', 'p', 'testnet', 3, 0, 0),
+    ('priv2-L3-s', 'priv', 2, 3, 'c5e318708c647163dd1cbd8ba4f362b479ff19f9cf24738a582bca757b217086', 's', 'litecoin', 2, 1, 0),
+    ('priv2-L5-l', 'priv', 2, 5, '93f2a37ff4ae8c04d5fa17d081b77dc163bc1582dbc50dbffa273f1f01c6d946', 'l', 'dogecoin_testnet', 0, 0, 47763),
+    ('priv2-L5-p', 'priv', 2, 5, '3ba275da84a5c299085b8980653b293f216fb485860d98fe9743969cbd0c12f4', 'p', 'signet', 0, 1, 172961),
+    ('priv2-L5-s', 'priv', 2, 5, '6e987fe5b1e27ae1bf19685ee05de990fcbe68a8efbf9d317c07396bb42aac4b', 's', 'litecoin_testnet', 1, 0, 78271),
+    ('chain1-L0-l', 'chain', 1, 0, '93d7607760a3e1d8d641c5a389841d99da2f913ceb6159c094ceaf8f98fce08d', 'l', 'testnet', 3, 1, 0),
+    ('chain1-L0-p', 'chain', 1, 0, '09d5816b11f34ccb836e70f89e22a52591b719ea6999057149678d94fc35a4e1', 'p', 'regtest', 2, 0, 0),
+    ('chain1-L0-s', 'chain', 1, 0, 'cdeaefa3cf0f075a58400a0cfe3afa21a8e70fa891470f40148f901343b556ee', 's', 'litecoin_legacy', 0, 1, 0),
+    ('chain1-L1-l', 'chain', 1, 1, 'ca26cddb91be0300468d8330ba52e1b90b0c036bf2ff0a6fb551449867da2600', 'l', 'bitcoinlib_test', 0, 0, 0),
+    ('chain1-L1-p', 'chain', 1, 1, 'e0d3e3fb605bf9b58185daa885ae667db22ed79736c93baaef5892c26dce0a03', 'p', 'testnet', 1, 1, 0),
+    ('chain1-L1-s', 'chain', 1, 1, '4a47d522c58bc9de66acefd84bbf3fdfcf59fc2e247c4b2aa228e643eaec602e', 's', 'litecoin', 3, 0, 0),
+    ('chain1-L2-l', 'chain', 1, 2, '0c8e3e0e025fac392f2fc178f07bcc4e192102ef3c25562a277fdf469fecce5b', 'l', 'regtest', 2, 1, 0),
+    ('chain1-L2-p', 'chain', 1, 2, '79a04f11a649e5fa21ac075bf7d84ae596f210783c9a2bab8d2f6d4a4dc31106', 'p', 'signet', 0, 0, 0),
+    ('chain1-L2-s', 'chain', 1, 2, '409cbd6ede2dad6cc2b388ecb11cdcbaf487dd4f7a488f1c94bb64b21312c945', 's', 'litecoin_testnet', 0, 1, 0),
+    ('chain1-L3-l', 'chain', 1, 3, '49712879163a0af96a8125a8bb0b295a794b482fa961df1c6e81e6fc16a59098', 'l', 'litecoin', 1, 0, 0),
+    ('chain1-L3-p', 'chain', 1, 3, 'b974a3376e603987d531e1cfbd6d0f21480001b877294c4750aa35b83acb93f9', 'p', 'regtest', 3, 1, 0),
+    ('chain1-L3-s', 'chain', 1, 3, 'cd6f0c8fb5d8517f50e0d66bdb485e90ad625ba70c92546dddeeaf171be3d908', 's', 'litecoin_legacy', 2, 0, 0),
+    ('chain1-L4-l', 'chain', 1, 4, '6a9de73ae4b1e406b973d6e36dc52d4b9bfed9e3ec061b80735bd24b579f4328', 'l', 'signet', 0, 1, 0),
+    ('chain1-L4-p', 'chain', 1, 4, 'e02e6291802c84779dd2f2719af4cd1923cc0287896c3eb42265351ee3787289', 'p', 'testnet', 0, 0, 0),
+    ('chain1-L4-s', 'chain', 1, 4, '06aa47fe64edd66f2b4f9df8de0d06743ebd803d6716cb5ad499033be18f601f', 's', 'litecoin', 1, 1, 0),
+    ('chain1-L5-l', 'chain', 1, 5, '6bd828922c862f140765f0fa452c7d41d8703e4534608e4f6bd04ed0577eccbd', 'l', 'bitcoin', 3, 0, 42),
+    ('chain1-L5-p', 'chain', 1, 5, 'f411c72577a035b81092f411e3f49ee54f6e6a1c3c00d317e5da4ae67c4be025', 'p', 'signet', 2, 1, 120),
+    ('chain1-L5-s', 'chain', 1, 5, '5f9c3c64b194465b893057561efdeee8d54c1807fb1ff39011e1fd7c43d801fa', 's', 'litecoin_testnet', 0, 0, 30),
+    ('chain2-L0-l', 'chain', 2, 0, 'd26f712ac0589090a0be52e9dbe3b7c0961475b0c0abd48450956d32f446dc8d', 'l', 'dogecoin', 0, 1, 0),
+    ('chain2-L0-p', 'chain', 2, 0, '00566d69d884476ab5cc6d9546cf4e7fcabb4817deae9b626e70c1b83c41edce', 'p', 'regtest', 1, 0, 0),
+    ('chain2-L0-s', 'chain', 2, 0, '10f9b2f351526bad8488517dc5f1d1848f8257da4b8c4c268d64daa3ed162d29', 's', 'litecoin_legacy', 3, 1, 0),
+    ('chain2-L1-l', 'chain', 2, 1, '7c862094b2aa8b802e42c3cfb3cb169a959748fb6b254de17089de380c1f2225', 'l', 'dogecoin_testnet', 2, 0, 0),
+    ('chain2-L1-p', 'chain', 2, 1, 'ad92d07087afbba36f79c48e6199411aa5197f31e8b7195b4a8b060a8f0640a3', 'p', 'testnet', 0, 1, 0),
+    ('chain2-L1-s', 'chain', 2, 1, 'd10537308317afbf6225bb1de7adddecad6046373744a63c67ad218ae2395577', 's', 'litecoin', 0, 0, 0),
+    ('chain2-L2-l', 'chain', 2, 2, '6ca94ca8c567b6d82a3f324a7c9e2784dab2c3d6a6347a1c799683711ce77f60', 'l', 'testnet', 1, 1, 0),
+    ('chain2-L2-p', 'chain', 2, 2, 'c1086bed366a2693657d61be52e9176c8a957f6e9e48ae14f3fdde9553249487', 'p', 'signet', 3, 0, 0),
+    ('chain2-L2-s', 'chain', 2, 2, 'b1cd2955fd25c2ebcbebc0c3ca166fb394e6abc0f4aa93f15c90d8e6f6ae65ed', 's', 'litecoin_testnet', 2, 1, 0),
+    ('chain2-L3-l', 'chain', 2, 3, 'c3addf473f136703beb7e74d57d7d0e080f3f999e32dcc9ef34a96008d813b2c', 'l', 'bitcoinlib_test', 0, 0, 0),
+    ('chain2-L3-p', 'chain', 2, 3, '9277d9190b9c4bf19686b68f8da5162e67770f7e1be8140ca41a5ca2e8794704', 'p', 'regtest', 0, 1, 0),
+    ('chain2-L3-s', 'chain', 2, 3, '588bd7c8a9e8baa1a5719b4e7ddf3aa48f9cbe93d03b6840c164d5e3a64a1a4e', 's', 'litecoin_legacy', 1, 0, 0),
+    ('chain2-L5-l', 'chain', 2, 5, '0193190e5b872bed24f3174c72c354c7c3ba2332f1aabdcb6c78560af207b0c1', 'l', 'regtest', 3, 1, 166345),
+    ('chain2-L5-p', 'chain', 2, 5, '0b6dd325d92001361993ed4560c71c752f1ea4dda7e842b0197ad1eab577d1c3', 'p', 'testnet', 2, 0, 139369),
+    ('chain2-L5-s', 'chain', 2, 5, '775844f69e88a4a375bebc1bdc01031d36177085180e1f710d97b2e286832173', 's', 'litecoin', 0, 1, 17471),
+    ('pubx1-L0-l', 'pubx', 1, 0, '00b2fc8fd16b77624cb7baa74e87fdd625190b0af4365cff68ef62bf8c18086b', 'l', 'litecoin', 0, 0, 0),
+    ('pubx1-L0-p', 'pubx', 1, 0, 'b863f115a680cb2e81d95d7e72a065fa748a8152e17d2bbb8070611fd1c147fc', 'p', 'signet', 1, 1, 0),
+    ('pubx1-L0-s', 'pubx', 1, 0, 'd3da0dbdeea53d1e84703d237b00e302b0f8f461cba3ef3a6a9d4057f82a1418', 's', 'litecoin_testnet', 3, 0, 0),
+    ('pubx1-L1-l', 'pubx', 1, 1, 'a41dac64769e84e59fcfc598b80c88a622c690a59f2bf1330e4b004a66b7af8a', 'l', 'signet', 2, 1, 0),
+    ('pubx1-L1-p', 'pubx', 1, 1, '16474c476283e7b9446a39fa1ead72283677f582b7528b5d645b3db96a843b8a', 'p', 'regtest', 0, 0, 0),
+    ('pubx1-L1-s', 'pubx', 1, 1, '74a63a731912336ff090de88b9823f95f78c9d9c4b5dea0e58c7bde72359dcd1', 's', 'litecoin_legacy', 0, 1, 0),
+    ('pubx1-L2-l', 'pubx', 1, 2, '66efc64a0ae8b79f54efc97d0531ce5ab8b99a5feedac77ac102e581f27aa6ff', 'l', 'bitcoin', 1, 0, 0),
+    ('pubx1-L2-p', 'pubx', 1, 2, '0c40954c42bded9dce19c5e2f8de9aa812317da2a7e05e4b205f9353e039f848', 'p', 'testnet', 3, 1, 0),
+    ('pubx1-L2-s', 'pubx', 1, 2, 'e603fa0ce033617edefd65dab010a430e53c65dd22a567b07e8755de31dcdfdb', 's', 'litecoin', 2, 0, 0),
+    ('pubx1-L3-l', 'pubx', 1, 3, 'cb21754bce3be0d1fd00f7a40035657b0133af6401dbde0e2ee1b58987d0a42c', 'l', 'dogecoin', 0, 1, 0),
+    ('pubx1-L3-p', 'pubx', 1, 3, '191e3fedc55d2314253a044e9992a4ad4f2dcc222be21d8224be5d7f62f14787', 'p', 'signet', 0, 0, 0),
+    ('pubx1-L3-s', 'pubx', 1, 3, '74e9eedd78d3064a44176d06d2530c1efeebceda84624a99b890197cbccd12ed', 's', 'litecoin_testnet', 1, 1, 0),
+    ('pubx1-L4-l', 'pubx', 1, 4, '02fcf8941f6c174d18843cb807f4091264099896bc42bbdf88d83908bf337a4f', 'l', 'dogecoin_testnet', 3, 0, 0),
+    ('pubx1-L4-p', 'pubx', 1, 4, '1027ef55f94313f35e4420bb18e84e6042853428e23c8535bbba08c19aeacb7b', 'p', 'regtest', 2, 1, 0),
+    ('pubx1-L4-s', 'pubx', 1, 4, '934494bbb97711dfd63edd9f8f3693ee41f06f77846c66d0bf995d196254399e', 's', 'litecoin_legacy', 0, 0, 0),
+    ('pubx1-L5-l', 'pubx', 1, 5, 'c081701cf85a7a1951f7df3b222d3128d1723a24cd220d4a172e959db4200b32', 'l', 'testnet', 0, 1, 164),
+    ('pubx1-L5-p', 'pubx', 1, 5, 'bec5311968f31097b3af1a22e1e9621a590621ac22ce176bd600fc1e2c80afbc', 'p', 'testnet', 1, 0, 221),
+    ('pubx1-L5-s', 'pubx', 1, 5, 'd80d9b1e72bcb280a7bb9d1fc5999152c00566c32f4e03b3e42f584b900acb4d', 's', 'litecoin', 3, 1, 86),
+    ('fpr1-L0-l', 'fpr', 1, 0, '23a37d7917d4d8606f7ddb508b72b1958df211bafb6e5809308569c8404270ce', 'l', 'bitcoinlib_test', 2, 0, 0),
+    ('fpr1-L0-p', 'fpr', 1, 0, '36e6cf7f4a3650b2c53bb286cad072a8d6f504c596fca6862b8953544df3bcfa', 'p', 'signet', 0, 1, 0),
+    ('fpr1-L0-s', 'fpr', 1, 0, '20c1265b50f94b7be9112b3238f188b9c3cdf8bb3ada997560077e979eced592', 's', 'litecoin_testnet', 0, 0, 0),
+    ('fpr1-L1-l', 'fpr', 1, 1, 'a44c32e1b8d4bb7ddd8c65de051a8495c3714d7d23db8f1fd8a110a238e616a1', 'l', 'regtest', 1, 1, 0),
+    ('fpr1-L1-p', 'fpr', 1, 1, 'e298e00add97d6f22f06cb634b914614da6e56f9f7b0d738981c77560f43d833', 'p', 'regtest', 3, 0, 0),
+    ('fpr1-L1-s', 'fpr', 1, 1, '433c88a7ba53d909fbf816eb01798e41c22526a92e00750a910ca68c20d21af8', 's', 'litecoin_legacy', 2, 1, 0),
+    ('fpr1-L2-l', 'fpr', 1, 2, 'dfcd0777b98ed821d97c85492c3fe8f9df26641c63e91b473a35cc0086f4f775', 'l', 'litecoin', 0, 0, 0),
+    ('fpr1-L2-p', 'fpr', 1, 2, '49cadc301dd218c5eeb4e8f3523fc2ffdfac395ba7276eba90479d0a8f24f004', 'p', 'testnet', 0, 1, 0),
+    ('fpr1-L2-s', 'fpr', 1, 2, 'eda063899b646d7c985afdde13d8a0ac416f0d07c7bb7438384eb99959856db2', 's', 'litecoin', 1, 0, 0),
+    ('fpr1-L3-l', 'fpr', 1, 3, 'cc6048d7bad7d87520022664b0983364b2600c6fa52e4b5e59bbd9c7ab26c639', 'l', 'signet', 3, 1, 0),
+    ('fpr1-L3-p', 'fpr', 1, 3, '3cb11288db337e3438563dd304c706f8f46c8c655ab7bdf8dff8c952ba81456d', 'p', 'signet', 2, 0, 0),
+    ('fpr1-L3-s', 'fpr', 1, 3, 'ea90a902777a1be5d25008f91339b8008815f4285243043d48b3ff6ed31f03ec', 's', 'litecoin_testnet', 0, 1, 0),
+    ('fpr1-L4-l', 'fpr', 1, 4, '5bddb2377084566b5de5324d9555dcde17958568a854e212db7a832c3be787a4', 'l', 'bitcoin', 0, 0, 0),
+    ('fpr1-L4-p', 'fpr', 1, 4, '85c5eb287808e88991f08bc2061441da444add25dfdfb3660fd68fb3382597c2', 'p', 'regtest', 1, 1, 0),
+    ('fpr1-L4-s', 'fpr', 1, 4, '8b0d661c0906960d05c4297c3dcf25c4378cb9cf2df5d114b542dd27b1b0ff62', 's', 'litecoin_legacy', 3, 0, 0),
+    ('fpr1-L5-l', 'fpr', 1, 5, 'd48906d31d62170be5ef4f207f8aa49cd2f9b478bd0fc85a49b6bd1d81b71caa', 'l', 'dogecoin', 2, 1, 163),
+    ('fpr1-L5-p', 'fpr', 1, 5, '6baa0adad9cbb5ba69d914097150e9a9c8a73c031086aaa2b0c9e66906318a60', 'p', 'testnet', 0, 0, 88),
+    ('fpr1-L5-s', 'fpr', 1, 5, 'bd96b54a7a6173efa2519e151a1b91b7a5ef382dbe093f033cca0d297caf2888', 's', 'litecoin', 0, 1, 287),
+]
+# multisig cosigner wallets (msrun): the key of cosigner `who` at level L of m/48'/coin'/0'/script' (BIP45: m/45') starts
+# with a zero byte.   (tag, level, base seed, network, witness type, cosigners, required, own position, who)
+MS_CORPUS = [
+    ('ms-priv1-L0-p-own', 0, 'fb5f4ffdcf880bf85712cfd9b36514985ead7c57cedb5de75e3cf3f83a0dcd89', 'bitcoin', 'p', 3, 2, 1, 1),
+    ('ms-priv1-L0-p-other', 0, '18ed5048e34a0df00a28cf7622a05f414cfe7d06385b837eeca9ae37817c5661', 'testnet', 'p', 2, 1, 0, 1),
+    ('ms-priv1-L1-p-own', 1, '7b38470d7e55128ec1ec6a87b252f80b318a6168566f1a4e01cd82828e2c3544', 'litecoin', 'p', 3, 1, 0, 0),
+    ('ms-priv1-L1-p-other', 1, '81788feac6bfbf712b9bc5b5cc8508b0753ba20bd7254cf00cbb1c2965539e2b', 'bitcoinlib_test', 'p', 2, 1, 0, 1),
+    ('ms-priv1-L2-p-own', 2, '8d9884b94e1c74d5a920b1dfc7af450cf4af0c69a1c3105872486846a7cce3bd', 'signet', 'p', 3, 3, 2, 2),
+    ('ms-priv1-L2-p-other', 2, 'c120be30d9fa0820796a7594a5621d1853aee2aebaf8a87e6d483b666ea84635', 'regtest', 'p', 2, 1, 0, 1),
+    ('ms-priv1-L3-p-own', 3, '322e090060390ed36a1ccc11bba56a59d63b380bb191e167a6fcf1013399a0fa', 'bitcoin', 'p', 3, 2, 1, 1),
+    ('ms-priv1-L3-p-other', 3, '60a5e5184e7659a4f53f0a8e57514f71c4ca7d1c168dc009188cce64f8271215', 'testnet', 'p', 2, 1, 0, 1),
+    ('ms-priv1-L4-p-own', 4, 'dddd781aaf6fdb72c5ebcd8cf27cc081ea808f8c23b446a4a6aa046b2373691e', 'litecoin', 'p', 3, 1, 0, 0),
+    ('ms-priv1-L4-p-other', 4, 'db15be6f71606df994d34cc561e9190bc11bf485cf15c7e6df3561948f611daf', 'bitcoinlib_test', 'p', 2, 1, 0, 1),
+    ('ms-priv1-L0-s-own', 0, 'e44aed8f213a8130d5e550f6758869519191392e23b2f70ab3a60896a450d9d7', 'signet', 's', 3, 3, 2, 2),
+    ('ms-priv1-L0-s-other', 0, 'b7bf3ebbb730d1cc97041597ceea7797878243276d4cf1fbb20f222fdb9c316e', 'regtest', 's', 2, 1, 0, 1),
+    ('ms-priv1-L1-s-own', 1, 'f630adc5b10830dce5d06f3367fd9c6fd04b318e3b780325efd793d928dc0979', 'bitcoin', 's', 3, 2, 1, 1),
+    ('ms-priv1-L1-s-other', 1, '1089c62bfd505ce90670079ac938b64f815026c665b796e2d78eb660032d5c9f', 'testnet', 's', 2, 1, 0, 1),
+    ('ms-priv1-L2-s-own', 2, '5149c068f730f611e7beb0ec335ea38432a18bf560fde79516cbd77f4c3140c9', 'litecoin', 's', 3, 1, 0, 0),
+    ('ms-priv1-L2-s-other', 2, 'd7e6ecb9425058c81f905b5ea1f21cc361b1ce0d01629e57e59e19ab46b4215a', 'bitcoinlib_test', 's', 2, 1, 0, 1),
+    ('ms-priv1-L3-s-own', 3, '6ecafa07deddc42190e88c8a0b21b57f28d3a78ff49f1e1eeee119258bfbf8b2', 'signet', 's', 3, 3, 2, 2),
+    ('ms-priv1-L3-s-other', 3, 'ef022142412a30464160e70243e582d185dccb0ce022088bce57cc74fa247acc', 'regtest', 's', 2, 1, 0, 1),
+    ('ms-priv1-L4-s-own', 4, '60c65f05a6a1682accc3b736d643b92b30b1cdcd81d3226386ca401e7d337a22', 'bitcoin', 's', 3, 2, 1, 1),
+    ('ms-priv1-L4-s-other', 4, '2090739d8d0fcf2066e314b85eeeeeec091532cbe98af196b672352afd2966af', 'testnet', 's', 2, 1, 0, 1),
+    ('ms-priv1-L0-l-own', 0, '3626f962888f9e375096f284d2024271165ca277f64d0ac114e684164f0ea5ba', 'litecoin', 'l', 3, 1, 0, 0),
+    ('ms-priv1-L0-l-other', 0, 'b10044e035e3c8dfcd1f62dc157cfc04ed17076c524bebc7a0166143cfd6cce2', 'bitcoinlib_test', 'l', 2, 1, 0, 1),
+    ('ms-priv1-L1-l-own', 1, 'a1a208b35d1163dec0ff4b424413d15a55a84fd07fda3d95f7ae9f10f2eaa210', 'signet', 'l', 3, 3, 2, 2),
+    ('ms-priv1-L1-l-other', 1, '9ac55557800aaa4fbadcd6ece937eb7f37b28ac0d785e31519e9af465173d97b', 'regtest', 'l', 2, 1, 0, 1),
+]
+
+# BIP32 test vectors 1-4 (vector 5 lists invalid extended keys only, it has no seed).  Vector 3 was added to BIP32 for
+# "retention of leading zeros" (master key 00ddb80b...), vector 4 for leading zeros in a hardened child
+BIP32_TV_SEEDS = [
+    (1, '000102030405060708090a0b0c0d0e0f'),
+    (2, 'fffcf9f6f3f0edeae7e4e1dedbd8d5d2cfccc9c6c3c0bdbab7b4b1aeaba8a5a29f9c999693908d8a8784817e7b7875726f6c696663605d5a5754'
+        '514e4b484542'),
+    (3, '4b381541583be4423346c643850da4b320e46a87ae3d2a4e6da11eba819cd4acba45d239319ac14f863b8d5ab5a0d0c64d2e8a1e7d1457df2e5a'
+        '3c51c73235be'),
+    (4, '3ddd5602285899a946114506157c7997e5444528f3003f6134712147db19b678'),
+]
+# chain m/0H of each vector as BIP32 prints it (checked against the oracle's own derivation in corpus_selfcheck)
+BIP32_TV_M0H = {
+    1: 'xprv9uHRZZhk6KAJC1avXpDAp4MDc3sQKNxDiPvvkX8Br5ngLNv1TxvUxt4cV1rGL5hj6KCesnDYUhd7oWgT11eZG7XnxHrnYeSvkzY7d2bhkJ7',
+    3: 'xprv9uPDJpEQgRQfDcW7BkF7eTya6RPxXeJCqCJGHuCJ4GiRVLzkTXBAJMu2qaMWPrS7AANYqdq6vcBcBUdJCVVFceUvJFjaPdGZ2y9WACViL4L',
+    4: 'xprv9vB7xEWwNp9kh1wQRfCCQMnZUEG21LpbR9NPCNN1dwhiZkjjeGRnaALmPXCX7SgjFTiCTT6bXes17boXtjq3xLpcDjzEuGLQBM5ohqkao9G',
+}
+
+
+def _feature(x, feat, n):
+    z = b'\0' * n
+    if feat == 'priv':
+        return x.k.to_bytes(32, 'big')[:n] == z
+    if feat == 'chain':
+        return x.c[:n] == z
+    if feat == 'pubx':
+        return x.pt[0].to_bytes(32, 'big')[:n] == z
+    return feat == 'fpr' and _h160(_ser(x.pt))[:n] == z
+
+
+def corpus_ok(e):
+    """the entry has the feature it claims (oracle's own BIP32)"""
+    tag, feat, n, level, seedhex, wt, net, acct, chg, idx = e
+    path = [(PURPOSE[WTN[wt]], True), (coin(net), True), (acct, True), (chg, False), (idx, False)]
+    return _feature(Deriver(bytes.fromhex(seedhex)).at(path[:level]), feat, n)
+
+
+def ms_corpus_ok(e):
+    tag, level, seedhex, net, wt, ncos, m, own, who = e
+    path = [(45, True)] if wt == 'l' else [(48, True), (coin(net), True), (0, True), (1 if wt == 'p' else 2, True)]
+    return _feature(Deriver(cosigner_seed(bytes.fromhex(seedhex), who)).at(path[:level]), 'priv', 1)
+
+
+def corpus_selfcheck():
+    """notes about the frozen material that does not check (such entries are left out)"""
+    notes = []
+    for v, want in BIP32_TV_M0H.items():
+        x = Deriver(bytes.fromhex(dict(BIP32_TV_SEEDS)[v])).at(((0, True),))
+        if _xser('bitcoin', 'legacy', x, True) != want:
+            notes.append('oracle BIP32 does not reproduce test vector %d chain m/0H' % v)
+    return notes
+
+
+class SeedScn(Scn):
+    """a scenario on a given seed (no sentence: only the ways of creating a wallet that do not go through BIP39)"""
+
+    def __init__(self, seed):
+        self.lang, self.words, self.sentence, self.password = 'english', [], 'seed', ''
+        self.seed, self.model_seed, self.der, self.cmds = seed, False, Deriver(seed), []
+
+
+def corpus_cmds(rng, scn, j, wt, net, acct, chg, idx, big, restores=2, feat='priv'):
+    """creation / restoration matrix and a short key history on one special seed (quick: `restores` of the three
+    levels of restore, the one the feature bears on first)"""
+    doge = net.startswith('dogecoin')
+    cmds = [create_cmd(rng, scn, 'a', 'seed', net, wt, acct, flags=''),
+            'G:a:-:0:-:-:2', 'G:a:-:1:-:-:1', 'P:a:r.%d.%d:-:0:0:-:-' % (chg, idx), 'K:a:-:%d:-:-:1' % chg, 'M:a:-:-:-']
+    if not doge:
+        cmds.append('K:a:-:0:%s:-:1' % 'lps'[('lps'.index(wt) + 1 + j % 2) % 3])
+    cmds += ['R:a', 'A:a:-:-:-', 'K:a:-:0:-:-:1', 'D:a']
+    kinds = [['xprvs', 'xprvk', 'xprv'][j % 3], ['xpubs', 'xpub', 'xpubk', 'xpubw'][j % 4], ['axprvs', 'axprv', 'axprvk'][j % 3]]
+    if big:
+        kinds += [['xprvk', 'xprv', 'xprvs'][j % 3], ['xpubk', 'xpubw', 'xpubs', 'xpub'][j % 4]]
+    elif restores >= 2:
+        del kinds[j % 3]          # quick: two of the three levels of restore, rotating
+    else:
+        # one restore: a public key with leading zeros bears on CKDpub (watch-only account wallets), a private key on
+        # the extended private keys
+        kinds = [kinds[1]] if feat == 'pubx' else [kinds[(0, 2, 1)[j % 3]]] if feat in ('chain', 'fpr') else [kinds[(0, 2)[j % 2]]]
+    for n, kind in enumerate(kinds):
+        slot = 'r%d' % n
+        cmds += [create_cmd(rng, scn, slot, kind, net, wt, acct, src='a', flags=('o' if (j + n) % 4 == 0 else '')),
+                 'G:%s:-:0:-:-:2' % slot, 'P:%s:r.%d.%d:-:0:0:-:-' % (slot, chg, idx)]
+        if n % 2 == j % 2:
+            cmds.append('R:%s' % slot)
+        cmds += ['K:%s:-:%d:-:-:1' % (slot, chg), 'D:%s' % slot]
+    return cmds
+
+
+def gen_corpus(rng, big):
+    cs = []
+    nets_l = ['bitcoin', 'testnet', 'litecoin', 'dogecoin', 'bitcoinlib_test', 'signet', 'dogecoin_testnet', 'regtest']
+    nets_ps = ['bitcoin', 'testnet', 'litecoin', 'bitcoinlib_test', 'signet', 'litecoin_testnet', 'testnet4', 'regtest']
+    # quick: a private key with one leading zero byte at each parent of a hardened derivation (m, purpose, coin type,
+    # account) for every witness type; of the other (feature, bytes, level, witness type) entries every seventh, a
+    # different seventh for different run seeds; thorough: everything
+    j = 0
+    off = rng.randrange(7 * 4)          # which part of the rest a quick run takes depends on the run's seed
+    for i, e in enumerate(CORPUS):
+        tag, feat, n, level, seedhex, wt, net, acct, chg, idx = e
+        core_entry = feat == 'priv' and n == 1 and level <= 3
+        if not big and not core_entry and (i + off) % 7 != 0:
+            continue
+        if not corpus_ok(e):
+            continue
+        scn = SeedScn(bytes.fromhex(seedhex))
+        scn.cmds = corpus_cmds(rng, scn, j, wt, net, acct, chg, idx, big, restores=2 if core_entry else 1, feat=feat)
+        cs.append(Case('corpus_' + feat, scn.req(), meta=('run',)))
+        j += 1
+    # BIP32 test-vector seeds, every witness type (quick: vector 3 on every witness type, the others rotating)
+    for v, seedhex in BIP32_TV_SEEDS:
+        for k, wt in enumerate('lps'):
+            if not big and v != 3 and (v, k) != ((1, 2, 4)[off % 3], off % 3):
+                continue
+            net = (nets_l if wt == 'l' else nets_ps)[j % 8]
+            scn = SeedScn(bytes.fromhex(seedhex))
+            scn.cmds = corpus_cmds(rng, scn, j, wt, net, [0, 1, 0, 2][j % 4], j % 2, rng.randrange(2, 9), big)
+            cs.append(Case('corpus_bip32_vector', scn.req(), meta=('run',)))
+            j += 1
+    for i, e in enumerate(MS_CORPUS):
+        tag, level, seedhex, net, wt, ncos, m, own, who = e
+        if not big and (i + off) % 4 != 0:
+            continue
+        if not ms_corpus_ok(e):
+            continue
+        cmds = ['C:a:%s:%s:%d:%d:%d' % (net, wt, ncos, m, own), 'K:a:0:-:1', 'K:a:1:-:1', 'G:a:0:1', 'R:a', 'K:a:0:-:1',
+                'G:a:1:1', 'U:a:0', 'K:a:1:-:1', 'K:a:0:-:1']
+        cs.append(Case('corpus_multisig', 'msrun %s %s' % (seedhex, ' '.join(cmds)), meta=('msrun',)))
+    return cs
+
+
+def gen_path_account(rng, big):
+    """full / relative paths that NAME an account (documented: values in the path take precedence over arguments), with
+    the account_id argument absent, 0 or equal, on wallets whose default account is 0 and non-zero; each followed by
+    new_key / get_key(account_id=that account) and listings by account.  (Default account non-zero with another
+    account in force is the recorded class explicit_path_account_column: generated in gen_reach.)"""
+    cs = []
+    nets = ['bitcoin', 'testnet', 'litecoin', 'bitcoinlib_test', 'signet', 'dogecoin', 'litecoin_testnet', 'regtest', 'testnet4']
+    for j in range(36 if big else 6):
+        net = nets[(j + j // 6) % len(nets)]
+        wt = 'l' if net.startswith('dogecoin') else 'lps'[j % 3]
+        dflt = [0, 2, 0, 3, 0, 1][j % 6]
+        pa, pb, pc = rng.sample([a for a in (1, 2, 3, 4, 5, 7) if a != dflt], 3)
+        scn = Scn(rng)
+        own = '%dh.%dh' % (PURPOSE[WTN[wt]], coin(net))
+        i1, i2, i3 = rng.randrange(1, 9), rng.randrange(0, 9), rng.randrange(1, 9)
+        cmds = [create_cmd(rng, scn, 'a', rng.choice(master_kinds_for(scn, False)), net, wt, dflt, flags=''), 'K:a:-:0:-:-:1']
+        if dflt == 0:
+            # no account_id argument, default account 0: the path alone names the account
+            cmds += ['P:a:f.m.%s.%dh.0.%d:-:0:0:-:-' % (own, pa, i1), 'K:a:%d:0:-:-:1' % pa, 'L:a:k:%d:-:-:-:-:-' % pa,
+                     'L:a:k:0:-:5:-:-:-', 'G:a:%d:0:-:-:2' % pa]
+        else:
+            # the argument names the same account as the path
+            cmds += ['P:a:f.m.%s.%dh.0.%d:%d:0:0:-:-' % (own, pa, i1, pa), 'K:a:%d:0:-:-:1' % pa, 'L:a:k:%d:-:-:-:-:-' % pa,
+                     'L:a:k:%d:-:5:-:-:-' % dflt]
+        # account_id=0 given explicitly, the path names another account
+        cmds += ['P:a:f.m.%s.%dh.1.%d:0:0:0:-:-' % (own, pb, i2), 'K:a:%d:1:-:-:1' % pb, 'G:a:%d:1:-:-:2' % pb,
+                 'L:a:k:%d:1:-:-:-:-' % pb, 'L:a:c:%d:-:-:-:-:-' % pb, 'L:a:a:0:-:-:-:-:-',
+                 'P:a:%s.%d.0.%d:0:0:0:-:-' % ('rs'[j % 2], pc, i3), 'K:a:%d:0:-:-:2' % pc, 'L:a:p:%d:-:-:-:-:-' % pc,
+                 'R:a', 'K:a:%d:0:-:-:1' % pa, 'K:a:%d:1:-:-:1' % pb, 'L:a:k:%d:-:5:-:-:-' % pa, 'L:a:l:%d:-:-:-:-:-' % pc,
+                 'K:a:-:0:-:-:1', 'L:a:k:-:-:5:-:-:-', 'D:a']
+        scn.cmds = cmds
+        cs.append(Case('path_account', scn.req(), meta=('run',)))
+    return cs
+
+
 # ------------------------------------------------------------------ requests outside the reach of the wallet's key
 # What the library of this run does with three kinds of request (asked once per run, see probe_library): the letters
 # travel in the flags field of every C command so that the model mirrors the library it is compared with, and a
@@ -1077,8 +1391,13 @@ def gen_cases(rng, tier):
             scn.cmds.append('D:%s' % slot)
         scn.cmds.append('D:a')
         cs.append(Case('history_explicit' if explicit else 'history_implicit', scn.req(), meta=('run',)))
+    # --- structurally special key material (frozen corpus of seeds, BIP32 test vectors) and paths that name an account;
+    #     drawn from a generator of their own so that the older streams keep their cases
     # --- wallet configurations x entry points x arguments that do not fit the configuration (must be refused)
     cs += gen_reach(rng, big)
+    rng2 = random.Random(rng.randrange(1 << 30))
+    cs += gen_corpus(rng2, big)
+    cs += gen_path_account(rng2, big)
     return cs
 
 
@@ -2441,6 +2760,7 @@ def main(tier, seed, replay=None):
                        'of digest-checked BIP39 lists)')
     for nt in WORDLIST_NOTES:
         res.notes.append(nt)
+    res.notes += corpus_selfcheck()
 
     exe = None
     exe, dout = core.build_driver(DRIVER)
